@@ -25,7 +25,8 @@ FILTERS = np.array([[0, 1, 0, 0], [0, 0, 1, 0]], float)
 SRC = {1: np.array([[0, 2, 1, 0], [0, 1, 3, 0]], float), 2: np.array([[0, 3, 0, 0], [0, 1, 1, 0], [0, 0, 2, 0]], float)}
 F = Fraction
 BOUNDS = {1: (None, [F(1), F(1)]), 2: ([F(1, 4), F(1, 4)], [F(2), F(2)]), 3: ([F(1, 2), F(0)], None),
-          4: (None, [F(1), F(1), F(1)]), 5: ([F(1, 4), F(0), F(1, 4)], [F(2), F(1), F(2)]), 6: (None, None)}
+          4: (None, [F(1), F(1), F(1)]), 5: ([F(1, 4), F(0), F(1, 4)], [F(2), F(1), F(2)]), 6: (None, None),
+          7: ([F(3, 2), F(3, 2)], None), 8: (None, [F(3), F(3)])}
 KPOOL = {1: 0.5, 2: np.array([1.0, 0.5]), 3: np.array([[1.0, 0.0], [0.5, 1.0]])}
 BLPOOL = {1: 0.0, 2: 0.5, 3: np.array([0.25, 0.5])}
 BG = {1: np.array([0, 2, 1, 0], float), 2: np.array([0, 1, 3, 0], float)}
@@ -312,6 +313,11 @@ def _replay_inner(st, mode, bad):
     chk("C14.ref-model", "W", np.broadcast_to(np.asarray(obj.W, float), (2,)), ans["W"], 0)
     if bool(obj.registered) != ans["registered"] or bool(obj.registered_targets) != ans["registered_targets"]:
         bad.append(("C14.ref-model", dict(q="flags", **where0), [ans["registered"], ans["registered_targets"]], [bool(obj.registered), bool(obj.registered_targets)]))
+    if ans["registered"] and ans["crossed"]:
+        # crossed bounds (a transient of partial register_bounds calls): only the stored values are compared
+        chk("C14.ref-model", "lb", obj.lb, fvec(ans["lb"]))
+        chk("C14.ref-model", "ub", obj.ub, fvec(ans["ub"]))
+        return bad
     if ans["registered"]:
         sa = ans["sys"]
         chk("C14.ref-model", "A", obj.A, sa["A"], 0)
